@@ -128,6 +128,7 @@ Check(e) ==
     [] e.ev = "SendDone" -> (e.ok \/ ms.faulted \/ ms.wfaulted \/ Report(e, "c18-send-failed", e))
     [] e.ev = "Quiescent" -> OnQuiescent(e)
     [] e.ev = "Panic" -> Report(e, "panic", e)
+    [] e.ev = "ReaderSpin" -> Report(e, "c38-reader-ignores-end-of-file", e)
     [] OTHER -> TRUE
 
 Upd(e) ==
